@@ -134,6 +134,169 @@ func checkC06(p *Prog, r *Report) {
 	c09IdentifierCompare(p, r, "C06.identifier-compare")
 	tokenBased(p, r, "C06.token-based")
 	boundedRecursion(p, r, "C06.bounded-recursion")
+	c06IdentifierToken(p, r)
+}
+
+// c06IdentifierToken: the lexer keeps the text of the LAST identifier it saw; it is not cleared
+// by later tokens.  Code that reads it for a token that is not an identifier compares stale text
+// (a table named "json" makes the '(' after it look like the JSON keyword).
+func c06IdentifierToken(p *Prog, r *Report) {
+	const rule = "C06.identifier-token"
+	r.Rule(rule, "the lexer's identifier text is read only where the current token is known to be an identifier: under a test of the token against tkIdentifier in the same function, or at the entry of a function all of whose call sites are so guarded")
+	lex := p.Named("parser", "lexer")
+	tkId := p.constOf("parser", "tkIdentifier")
+	var nextFn *ssa.Function
+	for _, m := range p.methodsOf(lex) {
+		if isGeneratedLexer(m) {
+			nextFn = m
+		}
+	}
+	if nextFn == nil {
+		fatalf("rule %s: the scanner function of the lexer was not found", rule)
+	}
+	// fields of the lexer that hold token text: string fields the scanner writes
+	textF := map[*types.Var]bool{}
+	eachInstr(nextFn, func(in ssa.Instruction) {
+		if st, ok := in.(*ssa.Store); ok {
+			if fa, ok := st.Addr.(*ssa.FieldAddr); ok && namedOf(fa.X.Type()) == lex {
+				if b, ok := fieldOfAddr(fa).Type().Underlying().(*types.Basic); ok && b.Kind() == types.String {
+					textF[fieldOfAddr(fa)] = true
+				}
+			}
+		}
+	})
+	readers := map[*ssa.Function]bool{}
+	for _, m := range p.methodsOf(lex) {
+		if m == nextFn || m.Signature.Results().Len() != 1 {
+			continue // (mark/rewind save and restore the text, they take no decision on it)
+		}
+		eachInstr(m, func(in ssa.Instruction) {
+			if fa, ok := in.(*ssa.FieldAddr); ok && textF[fieldOfAddr(fa)] {
+				readers[m] = true
+			}
+		})
+	}
+	if len(readers) == 0 {
+		fatalf("rule %s: no accessor of the lexer's identifier text found", rule)
+	}
+	fns := p.ScopedFuncs("parser")
+	// functions that may advance the lexer
+	advances := map[*ssa.Function]bool{nextFn: true}
+	for changed := true; changed; {
+		changed = false
+		for _, f := range fns {
+			if advances[f] || readers[f] {
+				continue
+			}
+			eachCall(f, func(c ssa.CallInstruction) {
+				if callee := c.Common().StaticCallee(); callee != nil && advances[callee] && !advances[f] {
+					advances[f] = true
+					changed = true
+				}
+			})
+		}
+	}
+	guarded := func(in ssa.Instruction) bool {
+		for _, ct := range dominatingConds(in.Block()) {
+			bo, ok := ct.Cond.(*ssa.BinOp)
+			if !ok {
+				continue
+			}
+			isId := func(v ssa.Value) bool {
+				c, ok := v.(*ssa.Const)
+				return ok && c.Value != nil && c.Value.ExactString() == tkId.ExactString() && typeIs(c.Type(), "parser", "token")
+			}
+			if isId(bo.X) || isId(bo.Y) {
+				if (bo.Op == token.EQL && ct.Truth) || (bo.Op == token.NEQ && !ct.Truth) {
+					return true
+				}
+			}
+		}
+		return false
+	}
+	// atEntry: no advancing call can run before the instruction
+	atEntry := func(in ssa.Instruction) bool {
+		fn := in.Parent()
+		b0 := in.Block()
+		for _, b := range fn.Blocks {
+			reaches := b == b0
+			if !reaches {
+				seen := map[*ssa.BasicBlock]bool{}
+				stack := []*ssa.BasicBlock{b}
+				for len(stack) > 0 && !reaches {
+					x := stack[len(stack)-1]
+					stack = stack[:len(stack)-1]
+					if seen[x] {
+						continue
+					}
+					seen[x] = true
+					for _, sc := range x.Succs {
+						if sc == b0 {
+							reaches = true
+						}
+						stack = append(stack, sc)
+					}
+				}
+			}
+			if !reaches {
+				continue
+			}
+			for _, bi := range b.Instrs {
+				if b == b0 && bi == in {
+					break
+				}
+				if c, ok := bi.(ssa.CallInstruction); ok {
+					if callee := c.Common().StaticCallee(); callee != nil && advances[callee] {
+						return false
+					}
+				}
+			}
+		}
+		return true
+	}
+	needs := map[*ssa.Function]bool{}
+	var bad []string
+	nsites := 0
+	for iter := 0; iter < 6; iter++ {
+		bad = nil
+		nsites = 0
+		changed := false
+		for _, f := range fns {
+			if readers[f] || isGeneratedLexer(f) {
+				continue
+			}
+			eachCall(f, func(c ssa.CallInstruction) {
+				callee := c.Common().StaticCallee()
+				if callee == nil || !(readers[callee] || needs[callee]) {
+					return
+				}
+				nsites++
+				in := c.(ssa.Instruction)
+				if guarded(in) {
+					return
+				}
+				if atEntry(in) && f.Parent() == nil {
+					if !needs[f] {
+						needs[f] = true
+						changed = true
+					}
+					return
+				}
+				bad = append(bad, fmt.Sprintf("%s: %s reads the lexer's identifier text (through %s) where the current token is not known to be an identifier: the text is that of an earlier identifier", p.Pos(c.Pos()), f.Name(), callee.Name()))
+			})
+		}
+		if !changed {
+			break
+		}
+	}
+	// entry points must not need an identifier
+	for f := range needs {
+		if f.Object() != nil && f.Object().Exported() {
+			bad = append(bad, fmt.Sprintf("%s needs an identifier token on entry but is an entry point", f.Name()))
+		}
+	}
+	r.count("identifier_text_reads", nsites)
+	r.check(len(bad) == 0 && nsites >= 6, rule, "identifier text reads", "", fmt.Sprintf("%d read/call sites, each under a tkIdentifier test", nsites), strings.Join(dedupe(bad), " || "))
 }
 
 func c06ErrAndSticky(p *Prog, r *Report, famList []*ssa.Function, fam map[*ssa.Function]bool) {
